@@ -13,7 +13,7 @@
 (* scan into the value the text denotes, consuming exactly what was        *)
 (* written.                                                                *)
 (***************************************************************************)
-EXTENDS Integers, Sequences, FiniteSets, TLC, Json, IOUtils
+EXTENDS Escapes, Json, IOUtils
 
 CONSTANT Mode
 T == ndJsonDeserialize(IOEnv.TRACE)
@@ -58,6 +58,8 @@ Round ==
        /\ E.consumed = E.wrote /\ E.wrote = Len(E.text)            \* exactly the characters that were written
        /\ E.back = E.denoted                                        \* the value the text denotes ...
        /\ (E.kind \in {"I", "S"} => E.back = E.v)                   \* ... which for Int and String is the value itself
+       /\ ((E.kind = "S" /\ E.via = "show") => E.text = Enc(E.v))               \* a String is shown as the quoted literal of the escape table
+       /\ ((E.kind = "S" /\ E.via = "stdio") => E.text = Enc(E.v) \o <<10>>)   \* (println: the literal and a line end)
 Next == Plain \/ PrintEv \/ Round
 Spec == Init /\ [][Next]_l
 Accepted == LET d == TLCGet("stats").diameter IN
